@@ -83,6 +83,10 @@ func NewKafkaDataHandler(options ...config.Option[*KafkaDataHandler]) (*KafkaDat
 		conf["security.protocol"] = handler.sasl.securityProtocol
 	}
 
+	if verifKafkaStub() {
+		handler.formatter = NewKafkaFormatter()
+		return handler, nil
+	}
 	producer, err := kafka.NewProducer(&conf)
 	if err != nil {
 		log.Warn("fail to create kafka producer", zap.Error(err))
@@ -96,6 +100,9 @@ func NewKafkaDataHandler(options ...config.Option[*KafkaDataHandler]) (*KafkaDat
 }
 
 func (k *KafkaDataHandler) KafkaOp(ctx context.Context, database string, f func(p *kafka.Producer, d chan kafka.Event) error) error {
+	if verifKafkaStub() {
+		return nil
+	}
 	kafkaFunc := func() error {
 		p := k.producer
 		d := k.deliveryChan
